@@ -110,6 +110,20 @@ def shard(idx, n, seed, tier, params):
     for (name, text), r in zip(mine, ask(probe, [t for _, t in mine])):
         judge(acc, r, text, name, False)
 
+    # (a2) statements in code that is parsed but never assembled (the body of a macro that is not invoked, a branch that is not
+    #      taken): whatever the parser accepts there without a diagnostic must be reproduced by Display as well
+    if idx == 0:
+        operands = ["#1,x", "#1 , y", "(1),x", "(1,y)", "1,x,y", "#<v,x", "(1,x),y", "#", "1,", "(1", "a", "#1 2", "1 ,x", "($10) , y", "#-1", "- + 1", "*,x", "#\"s\"", "\"s\",x",
+                    "#1 /*c*/ , x", "( 1 ) , x", "#(1),y", "#1,X", "1,Y ", "((1)),y", "(1),y,x", "#1,x // c"]
+        dead = []
+        for op in operands:
+            for mnem in ("lda", "STA", "jmp", "inc", "bne"):
+                dead.append(".macro never_zz() {\n    %s %s\n}\n" % (mnem, op))
+                dead.append(".if 0 {\n    %s %s\n}\n" % (mnem, op))
+        for text, r in zip(dead, ask(probe, [t + MARKER_SRC for t in dead])):
+            judge(acc, r, text + MARKER_SRC, "statement in never-assembled code", True)
+        acc.count("dead_code_texts", len(dead))
+
     # (b) complete single-character mutation of short programs
     progs = corpus.SHORT_PROGRAMS
     jobs = []
